@@ -14,14 +14,14 @@
 EXTENDS Block, TLC, Json, FiniteSets
 CONSTANTS BS0, BS1, HS, MaxLen, Gen, Toggles
 B == <<BS0, BS1>>
-VARIABLES d, n, lastAdv, hist, primed
-vars == <<d, n, lastAdv, hist, primed>>
-Init == d = DecRestart(B, HS) /\ n = 0 /\ lastAdv = 0 /\ hist = <<>> /\ primed = FALSE
+VARIABLES d, n, lastAdv, hist, primed, solid, lapn, trk      \* trk: a track-only block has been taken in since the last block with PCM
+vars == <<d, n, lastAdv, hist, primed, solid, lapn, trk>>
+Init == d = DecRestart(B, HS) /\ n = 0 /\ lastAdv = 0 /\ hist = <<>> /\ primed = FALSE /\ solid = FALSE /\ lapn = 0 /\ trk = FALSE
 
-GpKinds == {"none", "exact", "short1", "back", "zero", "far"}
+GpKinds == {"none", "exact", "short1", "back", "zero", "far", "neg"}
 GpOf(kind, sc1, adv) ==
   CASE kind = "none" -> -1 [] kind = "exact" -> sc1 [] kind = "short1" -> IF sc1 > 0 THEN sc1 - 1 ELSE 0
-    [] kind = "back" -> IF sc1 - adv - 3 > 0 THEN sc1 - adv - 3 ELSE 0 [] kind = "zero" -> 0 [] OTHER -> sc1 + 5
+    [] kind = "back" -> IF sc1 - adv - 3 > 0 THEN sc1 - adv - 3 ELSE 0 [] kind = "zero" -> 0 [] kind = "neg" -> -5 [] OTHER -> sc1 + 5
 
 Syn(w, gap, gk, eos, pcm) ==
   /\ DecBlockinAllowed(d)
@@ -32,39 +32,47 @@ Syn(w, gap, gk, eos, pcm) ==
          g   == GpOf(gk, sc1, adv)
      IN /\ d' = DecBlockin(B, d, w, no, g, eos, pcm)
         /\ lastAdv' = IF pcm THEN ShrI(adv, d.hs) ELSE lastAdv
-        /\ primed' = (primed \/ pcm)
+        /\ primed' = (primed \/ pcm) /\ solid' = (IF pcm THEN FALSE ELSE solid) /\ lapn' = 0 /\ trk' = ~pcm
         /\ hist' = (IF Gen THEN Append(hist, <<IF pcm THEN "syn" ELSE "trk", gap, gk, IF eos THEN 1 ELSE 0>>) ELSE hist)
   /\ n' = n + 1
 Read(all) ==
   /\ DecAvail(d) > 0
   /\ d' = DecRead(d, IF all THEN DecAvail(d) ELSE 1)
-  /\ hist' = (IF Gen THEN Append(hist, <<"read", IF all THEN -1 ELSE 1>>) ELSE hist) /\ n' = n + 1 /\ UNCHANGED <<lastAdv, primed>>
-Restart == /\ d' = [DecRestart(B, d.hs) EXCEPT !.lW = d.lW, !.W = d.W] /\ lastAdv' = 0 /\ primed' = FALSE
+  /\ hist' = (IF Gen THEN Append(hist, <<"read", IF all THEN -1 ELSE 1>>) ELSE hist) /\ n' = n + 1 /\ UNCHANGED <<lastAdv, primed, solid, lapn, trk>>
+Restart == /\ d' = [DecRestart(B, d.hs) EXCEPT !.lW = d.lW, !.W = d.W] /\ lastAdv' = 0 /\ primed' = FALSE /\ solid' = FALSE /\ lapn' = 0 /\ trk' = FALSE
            /\ hist' = (IF Gen THEN Append(hist, <<"rest">>) ELSE hist) /\ n' = n + 1
 \* blockin while samples are pending is refused (OV_EINVAL) and changes nothing
 \* vorbis_synthesis_halfrate is accepted at any time and blockin / restart read the flag live, while the buffer was sized at initialisation
-Toggle == /\ Toggles /\ d' = [d EXCEPT !.hs = 1 - d.hs] /\ hist' = (IF Gen THEN Append(hist, <<"hr", 1 - d.hs>>) ELSE hist) /\ n' = n + 1 /\ UNCHANGED <<lastAdv, primed>>
-Refused == ~DecBlockinAllowed(d) /\ UNCHANGED <<d, lastAdv, primed>> /\ hist' = (IF Gen THEN Append(hist, <<"syn", 0, "exact", 0>>) ELSE hist) /\ n' = n + 1
+Toggle == /\ Toggles /\ d' = [d EXCEPT !.hs = 1 - d.hs] /\ hist' = (IF Gen THEN Append(hist, <<"hr", 1 - d.hs>>) ELSE hist) /\ n' = n + 1 /\ UNCHANGED <<lastAdv, primed, solid, lapn, trk>>
+\* vorbis_synthesis_lapout at any time (vorbisfile calls it from the lapping seeks and from ov_crosslap)
+Lapout == /\ ~Toggles /\ LET r == DecLapout(B, d, solid) IN d' = r.d /\ solid' = r.solid /\ lapn' = r.n
+          /\ hist' = (IF Gen THEN Append(hist, <<"lap">>) ELSE hist) /\ n' = n + 1 /\ UNCHANGED <<lastAdv, primed, trk>>
+Refused == ~DecBlockinAllowed(d) /\ UNCHANGED <<d, lastAdv, primed, solid, lapn, trk>> /\ hist' = (IF Gen THEN Append(hist, <<"syn", 0, "exact", 0>>) ELSE hist) /\ n' = n + 1
 
 Next == /\ n < MaxLen
         /\ \/ \E w \in {0, 1}, gap \in {0, 1}, gk \in GpKinds, eos \in BOOLEAN, pcm \in BOOLEAN :
-                (Gen => (pcm \/ gk = "none")) /\ Syn(w, gap, gk, eos, pcm)
+                Syn(w, gap, gk, eos, pcm)
            \/ \E all \in BOOLEAN : Read(all)
            \/ Restart
            \/ Toggle
+           \/ Lapout
            \/ Refused
 Spec == Init /\ [][Next]_vars
 
 BufOK        == Toggles \/ DecBufOK(B, d)
 \* the buffer is allocated for full rate (pcm_storage = blocksizes[1]) whatever the flag was at initialisation: indices stay inside it under any toggling
 StoreOK      == d.ret = -1 \/ (0 <= d.ret /\ d.ret <= d.cur /\ d.cur <= BS1)
-\* (a track-only block on a decoder that has not decoded anything since its (re)start can make never-decoded buffer content
-\*  "pending" when a short granule position arrives: the begin trim moves pcm_returned off its -1 marker.  The real code does the
-\*  same (probed); it stays inside the buffer, and no listed property speaks about it, so the bound is stated for primed decoders.)
-PendingOK    == DecAvail(d) >= 0 /\ (primed /\ ~Toggles => DecAvail(d) <= lastAdv)
+\* (until the repair of the begin trim in vorbis_synthesis_blockin this bound held for primed decoders only: a track-only block plus a granule position
+\*  below the count moved pcm_returned off its -1 marker, and a following lapout pushed it negative - found on the real library through a damaged stream)
+PendingOK    == DecAvail(d) >= 0 /\ (~Toggles => DecAvail(d) <= lastAdv)
+\* lapout never leaves the buffer and never reports a negative count
+\* (after a track-only block lW / W describe that block while the buffer still holds the layout of the last block with PCM: lapout then consolidates
+\*  by the wrong rule and its count can be negative - the real decoder does the same, -320 observed; the indices stay inside the buffer, which is what
+\*  memory safety needs, and vorbisfile always decodes a block with PCM between its track-only blocks and a lapout)
+LapoutOK     == StoreOK /\ (~trk => lapn >= 0)
 RetInsideCur == d.ret = -1 \/ d.ret <= d.cur
 \* witnesses (expected to be violated): the end trim and the begin trim are both exercised
 NeverEndTrim   == ~(d.eof = 1 /\ DecAvail(d) > 0 /\ DecAvail(d) < lastAdv)
 Export == (Gen /\ n = MaxLen) => PrintT("HIST " \o ToJson(hist))
-View == <<d, lastAdv, primed, IF Gen THEN n ELSE 0>>
+View == <<d, lastAdv, primed, solid, lapn, trk, IF Gen THEN n ELSE 0>>
 =============================================================================
